@@ -59,6 +59,8 @@ impl Rng {
 pub struct Out {
     w: Box<dyn Write>,
     pub lines: usize,
+    /// when set, events are kept in memory instead of being written
+    pub mem: Option<Vec<Value>>,
 }
 
 impl Out {
@@ -70,9 +72,16 @@ impl Out {
                 std::fs::File::create(path).unwrap_or_else(|e| panic!("create {path}: {e}")),
             ))
         };
-        Out { w, lines: 0 }
+        Out { w, lines: 0, mem: None }
+    }
+    pub fn memory() -> Out {
+        Out { w: Box::new(std::io::sink()), lines: 0, mem: Some(vec![]) }
     }
     pub fn emit(&mut self, v: Value) {
+        if let Some(m) = self.mem.as_mut() {
+            m.push(v);
+            return;
+        }
         serde_json::to_writer(&mut self.w, &v).unwrap();
         self.w.write_all(b"\n").unwrap();
         self.lines += 1;
